@@ -495,7 +495,7 @@ fn fam_structure(tier: &str) -> Report {
         "if a > b { c } else { d }", "match a { 1 => b, _ => c }", "&mut a", "a as u8", "-a",
     ];
     let opn = if tier == "thorough" { operands.len() } else { 19 };
-    let mut render = |acts: &[Act], init: &str, r: &mut Report| {
+    let mut render_h = |acts: &[Act], init: &str, handler: Option<(&str, bool)>, r: &mut Report| {
         let mut s = String::from(init);
         let mut exp: Vec<(String, bool, &str, Vec<String>)> = vec![("Single".into(), false, "None", vec![squeeze(init)])];
         let mut depth = 0i32;
@@ -517,13 +517,23 @@ fn fam_structure(tier: &str) -> Report {
         }
         let _ = depth;
         // two branches so that the separating comma is exercised too
-        let input = format!("{}, tail0 |> tail1", s);
+        // optionally a handler right behind the branch (with or without the separating comma: after a branch that ends
+        // with a `{..}` operand the comma is optional, the handler keyword itself ends the operand)
+        let input = match handler {
+            Some((kw, comma)) => format!("{}{} {} => |a, b| h(a, b), tail0 |> tail1", s, if comma { "," } else { "" }, kw),
+            None => format!("{}, tail0 |> tail1", s),
+        };
         let parsed = input.parse::<proc_macro2::TokenStream>().ok().and_then(|t| syn::parse2::<JoinInputDefault>(t).ok());
         match parsed {
             None => r.check(false, &input, "well-formed chain rejected by the parser"),
             Some(p) => {
                 let mut ok = p.branches.len() == 2 && p.branches[0].members().len() == exp.len();
                 let mut why = format!("parsed into {} branches / {} members, expected 2 / {}", p.branches.len(), p.branches.get(0).map(|b| b.members().len()).unwrap_or(0), exp.len());
+                let hk = match &p.handler { None => "none", Some(h) if h.is_map() => "map", Some(h) if h.is_then() => "then", Some(_) => "and_then" };
+                if ok && hk != handler.map(|h| h.0).unwrap_or("none") {
+                    ok = false;
+                    why = format!("handler parsed as `{}`, written as `{}`", hk, handler.map(|h| h.0).unwrap_or("none"));
+                }
                 if ok {
                     for (m, e) in p.branches[0].members().iter().zip(exp.iter()) {
                         let vn = variant_name(m.expr());
@@ -545,6 +555,7 @@ fn fam_structure(tier: &str) -> Report {
             }
         }
     };
+    let mut render = |acts: &[Act], init: &str, r: &mut Report| render_h(acts, init, None, r);
     let operand_for = |op: &str, k: usize| -> Vec<String> {
         let (_, _, ar) = OPS.iter().find(|o| o.0 == op).unwrap();
         match *ar {
@@ -604,8 +615,26 @@ fn fam_structure(tier: &str) -> Report {
             }
         }
     }
+    // 6. a handler directly behind a branch: after every one-operand operator, the last operand plain or a `{..}` block,
+    //    with the separating comma and (block operands only: there the comma is optional) without it
+    drop(render);
+    for (op1, _, _) in OPS.iter() {
+        if ["<<<", "..", ">.", "^@", "?^@", "<->", "=>[]", "?&!>"].contains(op1) { continue; }
+        if operand_for(op1, 0).len() != 1 { continue; }
+        for kw in ["then", "map", "and_then"] {
+            for d in [false, true] {
+                for (operand, comma) in [("f", true), ("{ let k = 2; move |v| v * k }", true), ("{ let k = 2; move |v| v * k }", false), ("{ match a { 1 => map, _ => then } }", false)] {
+                    render_h(&[Act { op: op1, deferred: d, wrap: false, operands: vec![operand.to_string()] }], "init()", Some((kw, comma)), &mut r);
+                }
+            }
+        }
+        // a block INITIAL value directly followed by a handler
+        for kw in ["then", "map", "and_then"] {
+            render_h(&[], "{ init() }", Some((kw, false)), &mut r);
+        }
+    }
     r.exhaustive = true;
-    r.notes.push(format!("22 operators x deferred x {} operand shapes; all adjacent pairs x 4 deferred patterns; 10 wrappers x 22 inner operators x 3 closing shapes; handler-keyword operands followed by `=>`", opn));
+    r.notes.push(format!("22 operators x deferred x {} operand shapes; all adjacent pairs x 4 deferred patterns; 10 wrappers x 22 inner operators x 3 closing shapes; handler-keyword operands followed by `=>`; a handler directly behind a branch (with / without comma after a block operand)", opn));
     r
 }
 
